@@ -39,6 +39,7 @@ def main():
     ap.add_argument('--seeded', action='store_true')
     ap.add_argument('--all-properties', action='store_true', help='for seeded patches: run every claimed check, not only the target property')
     ap.add_argument('-v', action='store_true')
+    ap.add_argument('--only', help='comma-separated names of seeded changes to run (with --matrix: the entries are merged into the existing MATRIX.json)')
     ap.add_argument('--matrix', action='store_true', help='with --seeded --all-properties: write seeded/MATRIX.json and caught_by into each meta.json')
     a = ap.parse_args()
     items = []
@@ -64,6 +65,9 @@ def main():
             items.append(it)
     if a.property:
         items = [i for i in items if i['property'] == a.property]
+    if a.only:
+        only = set(a.only.split(','))
+        items = [i for i in items if (i.get('name') or i.get('patch')) in only]
     fails = 0
     matrix = {}
     with ThreadPoolExecutor(max_workers=8) as ex:
@@ -90,7 +94,13 @@ def main():
                 fails += 1
     print('selftest: %d items, %d not caught' % (len(items), fails))
     if a.matrix and a.seeded:
-        json.dump(matrix, open(os.path.join(VERIF, 'seeded', 'MATRIX.json'), 'w'), indent=1, sort_keys=True)
+        mpath = os.path.join(VERIF, 'seeded', 'MATRIX.json')
+        if a.only and os.path.exists(mpath):
+            merged = json.load(open(mpath))
+            merged.update(matrix)
+        else:
+            merged = matrix
+        json.dump(merged, open(mpath, 'w'), indent=1, sort_keys=True)
         for name, e in matrix.items():
             mp = os.path.join(VERIF, 'seeded', name, 'meta.json')
             m = json.load(open(mp))
